@@ -416,6 +416,11 @@ func (fr *frame) applyContract(ct *Contract, callee *ssa.Function, sig *types.Si
 	post.results = res
 	post.rtypes, post.rnames = resultTypes(sig)
 	for _, cl := range ct.Ensures {
+		if hasTag(cl.Tags, "local") {
+			// proved for the function itself, not handed to callers (keeps heavy
+			// quantified facts out of every caller's queries)
+			continue
+		}
 		g, err := post.trBool(cl.Expr)
 		if err != nil {
 			vc.warn("contract %s ensures %q: %v", ct.Key, cl.Text, err)
